@@ -75,7 +75,7 @@ def main():
         checks = m.get("run_checks") or [m["property"]]
         jobs.append((name, patch, checks, "seeded"))
     results = {}
-    with cf.ThreadPoolExecutor(2) as ex:
+    with cf.ThreadPoolExecutor(int(os.environ.get("VF_SELFTEST_JOBS", "2"))) as ex:
         futs = {ex.submit(run, f, checks, tier): (name, checks, kind) for name, f, checks, kind in jobs}
         for fu in cf.as_completed(futs):
             name, checks, kind = futs[fu]
